@@ -10,6 +10,10 @@ package main
 // searched for the client address.
 
 import (
+	"strconv"
+	"path/filepath"
+	"os/exec"
+	"encoding/json"
 	"bytes"
 	"fmt"
 	"io"
@@ -500,4 +504,111 @@ func TestVerif_C17_pairs(t *testing.T) {
 		}
 		c17Check(rt, rec, e, h, c)
 	})
+}
+
+// The switch itself: the station is started with LOG_CLIENT_IP unset or set to something that does
+// not switch client-address logging on (a Go boolean that is false, or a value that is no boolean at
+// all - the station treats that as "off"). Each spelling runs in a re-executed child of the test
+// binary, so that whatever the package does with the environment when it is initialised is in effect.
+var c17OffSpellings = []string{"<unset>", "", "false", "0", "f", "F", "FALSE", "False", "no", "off", "OFF", "n", "N", "none", "disabled", "disable", "false;", "\"false\"", "'0'", "nope", "-", "null", "nil", "falsch", "0 ", " false", "fals", "00", "2", "-1", "no!"}
+
+type c17EnvChildOut struct {
+	Ran   int      `json:"ran"`
+	Leaks []string `json:"leaks"`
+	Flag  bool     `json:"flag"`
+}
+
+func TestVerif_C17_envchild(t *testing.T) {
+	out := os.Getenv("VERIF_C17_ENVOUT")
+	if out == "" {
+		return // only meaningful as a child of TestVerif_C17_envflag
+	}
+	res := c17EnvChildOut{Flag: logClientIP}
+	log.SetLevel(log.ErrorLevel)
+	e := aNewEnv(t)
+	e.cov = aNewCovert(t)
+	defer e.cov.Close()
+	h, err := c17Install(e) // NOTE: unlike c17Env this does not touch logClientIP
+	if err != nil {
+		t.Fatalf("harness problem: %v", err)
+	}
+	for _, addr := range []string{"v4", "v6"} {
+		for _, sc := range []string{"nomatch-read-later", "found-upload-read", "ranout-discard-read"} {
+			o := c17Run(e, h, c17Case{Addr: addr, Scenario: sc, Err: "reset", Pos: 0, Err2: "eof"})
+			res.Ran++
+			if o.key != "" && o.key != "harness" {
+				res.Leaks = append(res.Leaks, fmt.Sprintf("[%s %s] %s", addr, sc, o.msg))
+			}
+		}
+	}
+	h.Uninstall()
+	b, _ := json.Marshal(res)
+	if err := os.WriteFile(out, b, 0o644); err != nil {
+		t.Fatalf("harness problem: %v", err)
+	}
+}
+
+func TestVerif_C17_envflag(t *testing.T) {
+	rec := vh.NewRec("C17", "envflag", "exhaustive over 31 spellings of LOG_CLIENT_IP that do not switch client-address logging on (unset, empty, Go booleans that are false, values that are no boolean at all), each in a re-executed child process of the test binary that then handles IPv4 and IPv6 connections ending in a reset on three paths; oracle: no output line contains the client address; non-trivial = a spelling that is not a Go boolean; distinct by spelling")
+	defer rec.Flush()
+	if vh.ReplayFile() != "" && !strings.Contains(vh.ReplayFile(), "envflag") {
+		t.Skip("replay file belongs to another sub-check")
+	}
+	run := func(sp string) {
+		outFile := filepath.Join(t.TempDir(), "out.json")
+		cmd := exec.Command(os.Args[0], "-test.run", "^TestVerif_C17_envchild$", "-test.count=1")
+		env := []string{}
+		for _, kv := range os.Environ() {
+			if strings.HasPrefix(kv, "LOG_CLIENT_IP=") || strings.HasPrefix(kv, "VERIF_OUT=") || strings.HasPrefix(kv, "VERIF_REPLAY=") {
+				continue
+			}
+			env = append(env, kv)
+		}
+		env = append(env, "VERIF_C17_ENVOUT="+outFile)
+		if sp != "<unset>" {
+			env = append(env, "LOG_CLIENT_IP="+sp)
+		}
+		cmd.Env = env
+		var buf bytes.Buffer
+		cmd.Stdout, cmd.Stderr = &buf, &buf
+		done := make(chan error, 1)
+		if err := cmd.Start(); err != nil {
+			t.Fatalf("harness problem: %v", err)
+		}
+		go func() { done <- cmd.Wait() }()
+		select {
+		case err := <-done:
+			if err != nil {
+				t.Fatalf("harness problem: child for LOG_CLIENT_IP=%q failed: %v\n%s", sp, err, buf.String())
+			}
+		case <-time.After(120 * time.Second):
+			_ = cmd.Process.Kill()
+			t.Fatalf("harness problem: child for LOG_CLIENT_IP=%q did not finish within 120 s", sp)
+		}
+		b, err := os.ReadFile(outFile)
+		var res c17EnvChildOut
+		if err != nil || json.Unmarshal(b, &res) != nil || res.Ran == 0 {
+			t.Fatalf("harness problem: child for LOG_CLIENT_IP=%q left no result (%v)\n%s", sp, err, buf.String())
+		}
+		_, perr := strconv.ParseBool(sp)
+		c := map[string]any{"LOG_CLIENT_IP": sp}
+		rec.Case(perr != nil && sp != "<unset>" && sp != "", vh.Digest(sp), c, "spelling")
+		if len(res.Leaks) > 0 {
+			rec.Violation(t, "leak:logging-switched-on-by-off-value", c, "started with LOG_CLIENT_IP=%q (not a value that switches client-address logging on) the station logs client addresses: %s", sp, res.Leaks[0])
+		}
+	}
+	if p := vh.ReplayFile(); p != "" {
+		var c map[string]string
+		if _, _, err := vh.LoadReplay(p, &c); err != nil {
+			t.Fatal(err)
+		}
+		run(c["LOG_CLIENT_IP"])
+		return
+	}
+	rec.SetExhaustive(true)
+	for i, sp := range c17OffSpellings {
+		if vh.Mine(i) {
+			run(sp)
+		}
+	}
 }
